@@ -512,12 +512,7 @@ class Abstractor:
     def describe(self, o):
         mn = self.modname
         if isinstance(o, types.FunctionType):
-            cells = []
-            for c in o.__closure__ or ():
-                try:
-                    cells.append(self.ref(c.cell_contents))
-                except ValueError:
-                    self.unsupported.append("empty cell")
+            cells = [self.ref(c) for c in o.__closure__ or ()]
             if hasattr(o, "__livepatch__") or hasattr(o, "__reload_update__"):
                 self.unsupported.append("hook")
             return dict(k="func", name=o.__name__, modn=o.__module__, code=self.token(o.__code__),
@@ -544,6 +539,12 @@ class Abstractor:
             if not all(isinstance(k, str) for k in o):
                 self.unsupported.append("non-str dict key")
             return dict(k="dict", entries=[[str(k), self.ref(v)] for k, v in sorted(o.items(), key=lambda kv: str(kv[0]))])
+        if isinstance(o, types.CellType):
+            try:
+                return dict(k="cell", content=self.ref(o.cell_contents))
+            except ValueError:
+                self.unsupported.append("empty cell")
+                return dict(k="atom", ty="builtins.cell", val="<empty>")
         if isinstance(o, types.MethodType):
             return dict(k="meth", func=self.ref(o.__func__), self=self.ref(o.__self__))
         if type(o) is staticmethod:
@@ -646,6 +647,34 @@ def diff_obs(got, want, prefix=""):
                 return d
         return None
     return None if got == want else (prefix or ".")
+
+
+_FIXES = {}
+
+
+def detect_fixes():
+    """Which of the proposed repairs the tree under test contains (decides the model variant; by source text)."""
+    from vcommon import REPO
+    if REPO not in _FIXES:
+        try:
+            src = open(os.path.join(REPO, "lib", "python", "pyflyby", "_livepatch.py")).read()
+        except OSError:
+            src = ""
+        klass = src[src.find("def _livepatch__class"):src.find("def _livepatch__object")]
+        _FIXES[REPO] = dict(d18="_livepatch__bases(" in klass,
+                            d41="setattr(oldobj, name, getattr(newobj, name))" in src,
+                            d44='"__weakref__"' in klass.split("_livepatch__bases")[0] or "'__weakref__'" in klass.split("_livepatch__bases")[0],
+                            d45="cell_contents = " in src)
+    return _FIXES[REPO]
+
+
+def layout_sig(k, modname):
+    """what CPython's `__bases__` assignment check looks at, coarsely: child of `object` or of a heap class, the
+    non-empty __slots__ along the MRO, whether instances have a __dict__"""
+    mro = [c for c in k.__mro__ if c.__module__ == modname]
+    return [any(b.__module__ == modname for b in k.__bases__),
+            [list(c.__dict__["__slots__"]) for c in mro if c.__dict__.get("__slots__")],
+            any("__slots__" not in c.__dict__ for c in mro)]
 
 
 class C16(Prop):
@@ -760,6 +789,13 @@ class C16(Prop):
             except BaseException as e:
                 obs["exec_fails"] = _exc_name(e)
             old_ns = {n: md[n] for n in pubs}
+            obs["layout_changed"] = False
+            if fresh is not None:
+                for n in pubs:
+                    fv = fresh.__dict__.get(n)
+                    if isinstance(md[n], type) and md[n].__module__ == name and isinstance(fv, type) and fv.__module__ == name:
+                        if layout_sig(md[n], name) != layout_sig(fv, name):
+                            obs["layout_changed"] = True
             multi, cellbad, kindbad, kindch = [], [], [], {}
             if fresh is not None:
                 multi, cellbad, kindbad = pairing(old_ns, fresh.__dict__, name)
@@ -1024,7 +1060,7 @@ class C16(Prop):
             return "trivial"
         if k["unsupported"]:
             return "unsupported: " + ",".join(k["unsupported"])
-        if "__bases__ assignment" in (obs.get("raised_msg") or ""):
+        if "__bases__ assignment" in (obs.get("raised_msg") or "") or obs.get("layout_changed"):
             return "CPython layout check on __bases__ (not modelled)"
         if obs.get("exec_fails") is None and "objs" not in k:
             return "livepatch was not reached"
@@ -1037,7 +1073,7 @@ class C16(Prop):
         req = dict(op="xreload", heap=k["pre"], sysmods=k["sysmods"], objs=k.get("objs", []),
                    name=k["sysmods"][0][0] if k["sysmods"] else "?", module=k["module"],
                    compileOk=obs.get("exec_fails") != "SyntaxError",
-                   mtime=dict(k="atom", ty="builtins.float", val=k["mtime"]), fuel=4000)
+                   mtime=dict(k="atom", ty="builtins.float", val=k["mtime"]), fuel=4000, fixes=detect_fixes())
         if obs.get("exec_fails") is not None and obs["exec_fails"] != "SyntaxError":
             req["fail"] = (case.get("fail") or {}).get("at", 0)
             req["objs"] = []
@@ -1115,7 +1151,7 @@ class C16(Prop):
             for f in sorted(set(mo) | set(io)):
                 x, y = mo.get(f), io.get(f)
                 where = "object %d (%s %s).%s" % (a, mo["k"], mo.get("name", ""), f)
-                if f in ("dict", "cls", "func", "self") and isinstance(x, int) and isinstance(y, int):
+                if f in ("dict", "cls", "func", "self", "content") and isinstance(x, int) and isinstance(y, int):
                     d = pair(x, y, where)
                 elif f in ("cells", "bases"):
                     d = None if len(x) == len(y) else where + ": length"
